@@ -916,9 +916,13 @@ def one(rep, c, cfg):
         rep.saw(w)
         cancel = f.call_blocks("cancel_inter_task_stream_read")
         rep.floor("R22.5", f"cancel_inter_task_stream_read call in Drop for TaskState {tag}", len(cancel), 1)
-        rep.ob("R22.5", f"Drop for TaskState: the wakeup read is cancelled before anything else {tag}",
-               all(f.set_dominates(set(cancel), x.bb) for x in f.calls() if x.bb not in cancel) and
-               all(f.set_dominates(set(cancel), b) for b, t in f.drops()), "", f.loc())
+        # only publishing a sleep state (an atomic write to shared.sleep_state) may precede the cancellation:
+        # everything that can run destructors or user code comes after it
+        quiet = {x.bb for x in sleep_calls(f, SLEEP_WRITES)} | {x.bb for x in f.calls(DEREF)}
+        rep.ob("R22.5", f"Drop for TaskState: the wakeup read is cancelled before anything is destroyed {tag}",
+               all(f.set_dominates(set(cancel), x.bb) for x in f.calls() if x.bb not in cancel and x.bb not in quiet) and
+               all(f.set_dominates(set(cancel), b) for b, t in f.drops()),
+               "tasks can be destroyed (or the p3 scope entered) while the wake-up stream read is still pending", f.loc())
         sw = bool_switches_on_call(f, "Tasks::is_empty")
         rep.floor("R22.5", f"tasks.is_empty() test in Drop for TaskState {tag}", len(sw), 1)
         scoped = [x for x in f.calls("TaskState::with_p3_task_set")]
